@@ -272,6 +272,16 @@ static bytes pick_type() {
     const unsigned r = g_rng.below(100);
     if (r < 75) { const model::attr& a = decl::attrs[g_rng.below(decl::n_attrs)]; return bytes(a.type, a.type + a.type_len); }
     if (r < 90) { bytes t; put16(t, g_rng.chance(1, 2) ? 0x2800 : (g_rng.chance(1, 2) ? 0x2803 : 0x2801)); return t; }
+    if (r < 95) {
+        // boundary values of the 16 bit type space (values the implementation might use internally as markers), in 16 bit form or
+        // as the equivalent 128 bit UUID built on the Bluetooth base UUID
+        static const std::uint16_t edge[] = { 0x0000, 0x0001, 0x0002, 0x00ff, 0x0100, 0x27ff, 0x2804, 0x7fff, 0x8000, 0xfffe, 0xffff };
+        const std::uint16_t v = edge[g_rng.below(sizeof edge / sizeof edge[0])];
+        bytes t;
+        if (g_rng.chance(2, 3)) { put16(t, v); return t; }
+        static const std::uint8_t base[12] = { 0xfb, 0x34, 0x9b, 0x5f, 0x80, 0x00, 0x00, 0x80, 0x00, 0x10, 0x00, 0x00 };
+        t.assign(base, base + 12); put16(t, v); put16(t, 0); return t;
+    }
     bytes t(g_rng.chance(1, 2) ? 2 : 16); for (auto& x : t) x = g_rng.byte(); return t;
 }
 static void pick_range(std::uint16_t& s, std::uint16_t& e) {
